@@ -15,7 +15,7 @@ func Generate(r *sim.Rng, prop, tier string, idx int) *sim.Case {
 		c.Sched.PCTLen = 200
 	}
 	// geometry
-	hugeOdds := 2500
+	hugeOdds := 1200
 	if tier == "thorough" {
 		hugeOdds = 400
 	}
